@@ -207,11 +207,19 @@ def run(ctx):
                 blf, clf = num(orc.get("B_limit_fine")), num(orc.get("C_limit_fine"))
                 unc_b = 2.0 * abs(bl - blf) if blf is not None else 0.0
                 unc_c = 2.0 * abs(cl - clf) if clf is not None else 0.0
+                # an extrapolation whose two step sizes disagree by more than half of the value is not in its asymptotic range (strongly
+                # associating fluid at low temperature: the radius of the density expansion is tiny): the oracle says nothing there
+                inconclusive_b = blf is not None and abs(bl - blf) > 0.5 * abs(blf)
+                inconclusive_c = clf is not None and abs(cl - clf) > 0.5 * abs(clf)
+                if inconclusive_b or inconclusive_c:
+                    stats["oracle_inconclusive"] = stats.get("oracle_inconclusive", 0) + 1
                 if blf is not None:
                     bl = blf
+                if clf is not None:
+                    cl = clf
                 scale_b = max(abs(B), abs(bl))
-                okB = abs(B - bl) <= RTOL_B * scale_b + 1e-9 + unc_b
-                stats["worst_oracle_B"] = max(stats["worst_oracle_B"], abs(B - bl) / (scale_b + 1e-300)) if okB else stats["worst_oracle_B"]
+                okB = inconclusive_b or abs(B - bl) <= RTOL_B * scale_b + 1e-9 + unc_b
+                stats["worst_oracle_B"] = max(stats["worst_oracle_B"], abs(B - bl) / (scale_b + 1e-300)) if (okB and not inconclusive_b) else stats["worst_oracle_B"]
                 if not okB:
                     # localise: a contribution whose zero-density path value is exactly 0 while the code is iterative there
                     contrib = None
@@ -223,7 +231,7 @@ def run(ctx):
                     report(cfg, "limit_mismatch", contrib, "B reported %r but (Z-1)/rho -> %r as rho -> 0%s"
                            % (B, bl, (" (contribution %s is dropped on the zero-density path)" % contrib) if contrib else ""),
                            dict(where, oracle=orc))
-                elif C is not None and not abs(C - cl) <= RTOL_C * max(abs(C), abs(cl)) + 1e-3 * abs(B) ** 2 + unc_c:
+                elif C is not None and not inconclusive_c and not abs(C - cl) <= RTOL_C * max(abs(C), abs(cl)) + 1e-3 * abs(B) ** 2 + unc_c:
                     report(cfg, "limit_mismatch", None, "C reported %r but d((Z-1)/rho)/drho -> %r as rho -> 0" % (C, cl),
                            dict(where, oracle=orc))
             for (q, x, key) in (("dB_dT", dB, "dB_dT_fd"), ("dC_dT", dC, "dC_dT_fd")):
@@ -250,6 +258,7 @@ def run(ctx):
         "limit_theorem_instantiated": limit_theorem,
         "third_virial_limit_theorem_instantiated": limit_theorem3,
         "oracle_evaluations": stats["oracle"], "oracle_worst_relative_B": stats["worst_oracle_B"],
+        "oracle_evaluations_outside_the_asymptotic_range_of_the_extrapolation": stats.get("oracle_inconclusive", 0),
         "samples": samples,
         "rule": "per configuration one composition, 2 (quick) / 4 (thorough) temperatures in [0.5,3] T_scale; programs traced at rho = 0 and at 1e-3 rho_max",
     }
